@@ -4,6 +4,7 @@ mod gosem;
 mod irck;
 mod oracle;
 mod projects;
+mod replay;
 mod sched;
 mod ug;
 
@@ -98,6 +99,7 @@ fn main() {
             let refs: Vec<&dyn drive::Family> = fams.iter().map(|f| &**f).collect();
             std::process::exit(drive::run_check(prop, &refs, tier, &root, seed));
         }
+        Some("replay") => std::process::exit(replay::replay(&args[2])),
         Some("det-one") => {
             families::determinism::det_one(args[2].parse().unwrap(), args[3].parse().unwrap());
         }
